@@ -73,6 +73,45 @@ class Lock:
         fcntl.flock(self.f, fcntl.LOCK_UN)
 
 
+def c15_witnesses(extract):
+    """concrete rows on which the artefacts C15 compares differ (search for a failing input, not a proof)"""
+    abi = (extract or {}).get("abi") or {}
+    out = []
+
+    def tbl(k):
+        return {e[0]: (tuple(e[1]), tuple(e[2])) for e in abi.get(k, [])}
+    wat, hdr, rs, exp, emits = tbl("wat"), tbl("header"), tbl("rustExtern"), tbl("providerExports"), tbl("trampolineEmits")
+    for a, an, b, bn in ((wat, "WAT", hdr, "C header"), (wat, "WAT", rs, "Rust extern block")):
+        if not a or not b:
+            continue
+        for n in sorted(set(a) | set(b)):
+            if a.get(n) != b.get(n):
+                out.append("%s: %s has %s, %s has %s" % (n, an, a.get(n), bn, b.get(n)))
+    acc = abi.get("trampolineAccepts")
+    if acc is not None and wat and sorted(acc) != sorted(wat):
+        out.append("trampoline table names differ from the WAT: %s" % sorted(set(acc) ^ set(wat)))
+    for n, sg in sorted(emits.items()):
+        if exp and exp.get(n) != sg:
+            out.append("emitted import %s %s: provider exports %s" % (n, sg, exp.get(n)))
+    # what the probed tool tolerates beyond its table
+    try:
+        txt = open(os.path.join(LEAN, "SfVerif", "Gen", "AbiTool.lean")).read()
+        m = re.search(r"def trampolineAllowList[^\n]*:= \[(.*?)\]\n", txt, re.S)
+        if m and exp:
+            for n in re.findall(r"/- (.*?) -/", m.group(1)):
+                if n not in exp and n != "memory":
+                    out.append("the tool accepts an import named `%s` from the API namespace; no table of the ABI and no provider export has it" % n)
+            if re.search(r"/-  -/ \[\]", m.group(1)):
+                out.append("the tool accepts an import with the empty name from the API namespace")
+    except Exception:
+        pass
+    mods = abi.get("modules") or {}
+    names = set(mods.get("wat") or []) | {mods.get("header"), mods.get("rust")} - {None}
+    if len(names) > 1:
+        out.append("import module names differ: %s" % sorted(names))
+    return out
+
+
 def theorems_of(prop):
     path = os.path.join(LEAN, "SfVerif", "Props", prop + ".lean")
     if not os.path.exists(path):
@@ -561,6 +600,14 @@ def main():
                 and any(not ok for _, ok, _ in obligations) and not any(v[2] for v in violations)):
             d_tiers.append("thorough")
             notes.append("a proof obligation is broken and the quick search found no failing input: searching again with the thorough generators")
+
+    # ------------------------------------------------------------------ C15: the disagreeing table rows are the failing input
+    if prop == "C15" and any(not ok for _, ok, _ in obligations):
+        wit = c15_witnesses(extract if tier != "replay" else {})
+        if wit:
+            rp = write_replay(prop, tier, seed, "tables", {"disagreements": wit,
+                "note": "rows on which two descriptions of the ABI (or the tool's behaviour and a table) differ on the current tree"})
+            violations.append(("descriptions of the ABI disagree: " + "; ".join(wit)[:400], rp, True))
 
     # ------------------------------------------------------------------ broken obligations
     broken = [(n, d) for n, ok, d in obligations if not ok]
